@@ -21,14 +21,14 @@ ASSUMPTIONS = ["liveness is restated as bounded progress; a watchdog timeout wit
 FLOORS = {"timer_evaluations": {"quick": 1500, "thorough": 30000}, "requests_honoured": {"quick": 1200, "thorough": 25000},
           "stops_checked": {"quick": 40, "thorough": 800}, "stops_while_waiting": {"quick": 15, "thorough": 300},
           "due_alarms": {"quick": 30, "thorough": 500}, "lagging_runs": {"quick": 20, "thorough": 400},
-          "pushes_while_waiting_checked": {"quick": 300, "thorough": 5000}, "idle_stops_checked": {"quick": 8, "thorough": 150}, "stops_requested_during_the_start_phase": {"quick": 8, "thorough": 150}, "lagging_bursts_of_1024_steps": {"quick": 5, "thorough": 100},
+          "pushes_while_waiting_checked": {"quick": 300, "thorough": 5000}, "idle_stops_checked": {"quick": 8, "thorough": 150}, "stops_requested_during_the_start_phase": {"quick": 8, "thorough": 150}, "relative_wall_alarms_requested_while_lagging": {"quick": 6, "thorough": 120}, "lagging_bursts_of_1024_steps": {"quick": 5, "thorough": 100},
           "push_source_timers_honoured": {"quick": 25, "thorough": 400}, "push_source_timers_with_earlier_push": {"quick": 10, "thorough": 150}}
 
 
 def gen(rng, k, seed):
     timers = []
     for _ in range(rng.choice([1, 2, 3, 5])):
-        kind = rng.choice(["rel", "abs", "wall", "due", "chain", "chain"])
+        kind = rng.choice(["rel", "abs", "wall", "wrel", "due", "chain", "chain"])      # wrel: a wall-clock alarm requested as a delay
         if kind == "chain":
             timers.append(f"chain:{rng.choice([1, 2, 50, 300, 2000, 7000])}:{rng.choice([3, 10, 40])}")
         elif kind == "due":
@@ -215,6 +215,7 @@ def _check(sc, tr, rc):
     C["due_alarms"] = due_alarms
     C["lagging_runs"] = 1 if past_us > 0 and T else 0
     C["lagging_bursts_of_1024_steps"] = 1 if kv.get("lag_burst") else 0
+    C["relative_wall_alarms_requested_while_lagging"] = sum(1 for t in str(kv.get("timers", "")).split(";") if t.startswith("wrel")) if past_us > 0 and T else 0
     # stop: at most one further cycle begins after request_stop() returned, and run() returns
     if tr.stop and tr.stop[0] < tr.run[0]:
         # on a loaded machine the controller thread can call request_stop() before the main thread has entered run(): the
